@@ -188,6 +188,27 @@ def check_config(idx, ci, bi, sel):
         edge_free = not any(on_edge(pair2[a][b], r, box) for a in range(n) for b in range(n))
         if edge_free and (adj != adj.T).any():
             return f"adjacency matrix not symmetric {ctx}"
+    # a batch that contains positions without a finite value (e.g. unresolved atoms): those rows are empty, every other
+    # row of the batch is answered as if it had been asked alone
+    r0 = radii[len(radii) // 2]
+    for bad_at, val in ((0, np.nan), (len(queries) // 2, np.inf), (len(queries) - 1, -np.inf)):
+        qb = qarr.copy()
+        qb[bad_at, bad_at % 3] = val
+        got = cl.get_atoms(qb, r0)
+        masks = cl.get_atoms(qb, r0, as_mask=True)
+        cells = cl.get_atoms_in_cells(qb, 1)
+        for qi in range(len(queries)):
+            row = got[qi]
+            vals = row[row != -1].tolist()
+            if qi == bad_at:
+                if vals or masks[qi].any() or (cells[qi] != -1).any():
+                    return f"query {qb[qi].tolist()} without a finite position is answered with atoms {vals} {ctx}"
+                continue
+            if bad(vals, dist2[qi], r0) or bad(np.where(masks[qi])[0].tolist(), dist2[qi], r0):
+                return f"batch with a non-finite position at row {bad_at}: row {qi} ({queries[qi]}, r={r0}) = {row.tolist()}, within radius {sorted(sets(dist2[qi], r0)[0])} {ctx}"
+            need = sets(dist2[qi], cs)[0]
+            if not need <= set(cells[qi][cells[qi] != -1].tolist()):
+                return f"batch with a non-finite position at row {bad_at}: get_atoms_in_cells row {qi} misses atoms {ctx}"
     # one radius per query
     rr = np.array([radii[qi % len(radii)] for qi in range(len(queries))], dtype=np.float32)
     got = cl.get_atoms(qarr, rr)
